@@ -115,9 +115,11 @@ func VerifK18eWriteCommand() {
 	}
 	vt.Reach("product-done")
 	vt.Assert(n > 0, "nothing enumerated")
-	vt.Assert(bad[0] == 0, "Write stored a tuple the model does not allow (or an implicit one)")
-	vt.Assert(bad[1] == 0, "Write rejected a tuple the model allows")
-	vt.Assert(bad[2] == 0, "Write outcome and datastore effect disagree")
+	// unconstrained mask bits keep a concretely false assertion from hiding the ones after it (see
+	// verifK18Report in internal/validation/zz_verif_k18.go)
+	vt.Assert(bad[0] == 0 || vt.Bool("mask0"), "Write stored a tuple the model does not allow (or an implicit one)")
+	vt.Assert(bad[1] == 0 || vt.Bool("mask1"), "Write rejected a tuple the model allows")
+	vt.Assert(bad[2] == 0 || vt.Bool("mask2"), "Write outcome and datastore effect disagree")
 }
 
 // Context size limit: a conditioned tuple the model allows is written iff proto.Size(context) <= limit.
